@@ -8,6 +8,7 @@ SPDX-License-Identifier: Apache-2.0
 package kmsdidkey
 
 import (
+	"crypto/ecdsa"
 	"crypto/elliptic"
 	"encoding/json"
 	"fmt"
@@ -69,6 +70,21 @@ func BuildDIDKeyByKeyType(pubKeyBytes []byte, keyType kms.KeyType) (string, erro
 		}
 
 		// used Compressed EC format for did:key, the same way as vdr key creator.
+		pubKeyBytes = elliptic.MarshalCompressed(ecKey.Curve, ecKey.X, ecKey.Y)
+	case kms.ECDSAP256TypeDER, kms.ECDSAP384TypeDER, kms.ECDSAP521TypeDER,
+		kms.ECDSAP256TypeIEEEP1363, kms.ECDSAP384TypeIEEEP1363, kms.ECDSAP521TypeIEEEP1363:
+		// ECDSA keys are exported from the KMS in PKIX DER or uncompressed point format, did:key (and its
+		// resolvers) use the Compressed EC format for NIST P curves.
+		j, err := jwkkid.BuildJWK(pubKeyBytes, keyType)
+		if err != nil {
+			return "", fmt.Errorf("buildDIDkeyByKMSKeyType failed to parse key type %v: %w", keyType, err)
+		}
+
+		ecKey, ok := j.Key.(*ecdsa.PublicKey)
+		if !ok || ecKey.X == nil || ecKey.Y == nil {
+			return "", fmt.Errorf("buildDIDkeyByKMSKeyType failed to parse key type %v: not an EC public key", keyType)
+		}
+
 		pubKeyBytes = elliptic.MarshalCompressed(ecKey.Curve, ecKey.X, ecKey.Y)
 	}
 
